@@ -128,8 +128,14 @@ def gen_plan(rng, tier, idx, opts):
             ops.append({"op": "set_receive_filters", "how": rng.choice(["W", "W_H"]), "seed": s()})
         elif r < 0.72:
             ops.append({"op": "set_P", "P": gen_P(rng, K, extreme)})
-        elif r < 0.75:
+        elif r < 0.735:
             ops.append({"op": "scribble_P", "factor": rng.choice([0.25, 0.5, 2.0])})
+        elif r < 0.75:
+            # an inadmissible power (an entry that is zero or negative, a wrong length, a non-positive scalar): refused, and the
+            # solver must be left exactly as it was
+            bad = [1.0] * K
+            bad[rng.randrange(K)] = rng.choice([0.0, -1.0])
+            ops.append({"op": "set_P_bad", "P": rng.choice([bad, bad, 0.0, -2.0, [1.0] * (K + 1)])})
         elif r < 0.78:
             ops.append({"op": "clear"})
             first = True
@@ -335,6 +341,15 @@ def execute(plan):
                             break
                     if costs:
                         bump(res["probes"], "iterations_monitored", len(costs))
+                elif o == "set_P_bad":
+                    try:
+                        solver.P = np.array(op["P"], dtype=float) if isinstance(op["P"], list) else op["P"]
+                        viol("power", step, "the inadmissible power %r was accepted" % (op["P"],), rel="accepted")
+                        break
+                    except ValueError:
+                        bump(res["faults"], "rejected-setter")
+                    log.add(o, op["P"])
+                    # falls through to check_relations: everything must still hold for the power set last
                 elif o == "set_max_iter":
                     solver.max_iterations = int(op["v"])
                     log.add(o, op["v"])
